@@ -511,12 +511,15 @@ class CodeSide(object):
         k = self._pattern_body(name, b)
         if k:
             return k
-        # 5 str branch of an isinstance split
-        if len(b) == 1 and isinstance(b[0], ast.If) and _u(b[0].test) in IS_STR_TESTS:
+        # 5 str branch of an isinstance split (`if <arg is a str>: ...return/raise` first; what follows handles non-strings)
+        if len(b) >= 1 and isinstance(b[0], ast.If) and _u(b[0].test) in IS_STR_TESTS \
+                and b[0].body and isinstance(b[0].body[-1], (ast.Return, ast.Raise)):
             sb = b[0].body
             k = self._pattern_body(name, sb)
             if k:
                 return k
+            if len(sb) == 1 and self._ret_identity(sb[0]):
+                return ('identity',)
             if len(sb) == 1 and isinstance(sb[0], ast.Return) and _u(sb[0].value) == 'make_NCName(arg)' \
                     and self.hex_chars is not None:
                 return ('hexEscape', self.hex_chars)
